@@ -136,6 +136,8 @@ JSON_POOL = [
     "07EF8B4D-AA09-4FFA-898D-C710796AFF41", "07ef8b4d-aa09-4ffa-898d-c710796aff41", "{07ef8b4d-aa09-4ffa-898d-c710796aff41}",
     "\n7ef8b4daa094ffa898dc710796aff41", "urn:uuid:07ef8b4d-aa09-4ffa-898d-c710796aff41", "07ef8b4daa094ffa898dc710796aff4'",
     [], [1], ["a"], {}, {"a": 1},
+    # numerals python parses but that are not valid literals / not what they look like when written out
+    "007", "+5", "00", "\u0663", "\uff15", "1_000", "0x10", "1e3", "١٢", ".5", "5.", "1E2", "+1.5", "١.٥",
 ]
 
 
@@ -494,6 +496,23 @@ def discharge(rep, kf, contracts, prop_id, tier="quick", seed=0, summaries=None)
             by_name = {cl.name: cl for cl in case.clauses}
             for ob in obs:
                 rep.add(ob)
+                if ob.status == UNDECIDED and case.pool is not None:
+                    # out of the engine's reach on this tree (typically: a changed body uses a construct outside the subset).  A
+                    # clause that has a native form is then tried on the concrete pool against the REAL function: a violating
+                    # input is a refutation with a replayable witness (sound); no violating input leaves it undecided.
+                    clname = ob.id.rsplit(".", 1)[1]
+                    cl0 = by_name.get(clname)
+                    if cl0 is None and clname == "no-exception-escapes":
+                        cl0 = Clause("no-exception-escapes", None,
+                                     native="(exc is not None and not isinstance(exc, ALLOWED)) or "
+                                            "(isinstance(result, str) and result.startswith('raised '))")
+                    if cl0 is not None and cl0.native and not cl0.known:
+                        w = E.find_input(c, case, cl0, ob)
+                        if w is not None:
+                            ob.status = REFUTED
+                            ob.witness = w
+                            ob.detail = f"decided natively on the concrete pool (the engine: {ob.detail[:160]})"
+                    continue
                 if ob.status != REFUTED:
                     continue
                 clname = ob.id.rsplit(".", 1)[1]
